@@ -584,7 +584,7 @@ type job struct {
 func TestC06(t *testing.T) {
 	r := vf.Start(t, "C06", vf.FaultEnumeration)
 	defer r.Finish()
-	r.SetRule("Histories over the alphabet {Est(l), Lost(l)} on 3 links (4 in part of the concurrent runs) in 6 (+3) uuid/peer sharing patterns (distinct; same peer; same uuid + same peer; same uuid + other peer; three links on one uuid; a self link on a shared uuid). Sequential part: every history of length L (quick 4, thorough 5; shorter ones are their prefixes) for every pattern, each event awaited, plus PRNG histories of length 6-8. Concurrent part: PRNG scripts from 2-4 goroutines plus a concurrent GetPeerLinks reader; the applied order is taken from the hook events. A case is non-trivial when the reference table changed at least twice during the history (the clean-up losses afterwards not counted); distinct = distinct (pattern, history[, observed hook order]). Oracle: reference table replayed in hook order; after EVERY event the copy of links/linksByPeerID taken under the controller lock must equal it (keys, partition by remote peer, same entry objects, no nil/duplicate entries); GetPeerLinks equals it (exactly when nothing is in flight, in some state of the call interval when concurrent); at settled points the values of EstablishLinkWithPeer directives equal it and every link the reference removed (lost / replaced / self) has had Close called. 'present => not closed' is never demanded. quic part: 9 scripted scenarios with real pconn/quic transports on an in-memory switch (close, reconnect with the same key from the same address, another key from the same address (usurp), two addresses, usurp and back, close racing a reconnect, silent kill); after every step GetPeerLinks must report exactly the sessions that are alive as seen by the harness and the remote ends; a closed link still reported after the transport finished processing its loss with no handler call pending is a violation.")
+	r.SetRule("Histories over the alphabet {Est(l), Lost(l)} on 3 links (4 in part of the concurrent runs) in 6 (+3) uuid/peer sharing patterns (distinct; same peer; same uuid + same peer; same uuid + other peer; three links on one uuid; a self link on a shared uuid). Sequential part: every history of length L (quick 4, thorough 5; shorter ones are their prefixes) for every pattern, each event awaited, plus PRNG histories of length 6-8. Concurrent part: PRNG scripts from 2-4 goroutines plus a concurrent GetPeerLinks reader; the applied order is taken from the hook events. A case is non-trivial when the reference table changed at least twice during the history (the clean-up losses afterwards not counted); distinct = distinct (pattern, history[, observed hook order]). Oracle: reference table replayed in hook order; after EVERY event the copy of links/linksByPeerID taken under the controller lock must equal it (keys, partition by remote peer, same entry objects, no nil/duplicate entries); GetPeerLinks equals it (exactly when nothing is in flight, in some state of the call interval when concurrent); at settled points the values of EstablishLinkWithPeer directives equal it and every link the reference removed (lost / replaced / self) has had Close called. 'present => not closed' is never demanded. quic part: 14 scripted scenarios with real pconn/quic transports on an in-memory switch (close, reconnect with the same key from the same address once / twice / on a second address / beside another peer / followed by close and connect / racing another peer's close, another key from the same address (usurp), two addresses, usurp and back, close racing a reconnect, silent kill), each run without and with the harness holding EstablishLinkWithPeer(L, peer) references (only with them a replacement link survives the late loss of the link it replaced: unreferenced, the controller closes all links of a peer when one is lost); after every step GetPeerLinks must report exactly the sessions that are alive as seen by the harness and the remote ends; a closed link still reported after the transport finished processing its loss with no handler call pending is a violation. The quic transport's own table is judged in every polling iteration after every step, without settling: for every address, the local end l of the newest session the script connected from it, if not closed (context alive before and after the lookups), must be what Transport.LookupLinkWithAddr returns and LookupLinkWithPeer must return a link of l's peer; a link whose loss the transport finished processing (hook) must not be returned by either lookup.")
 	r.Assume("a fake link never reports its own loss; its local peer is the transport's peer; uuids are stable")
 	r.Assume("linearisation order = order of the tc.established / tc.lost hook events (emitted as the last action under Controller.bcast); a handler call that HoldLockMaybeAsync applies later than a subsequent call of the same goroutine is judged in applied order (counted as program_order_inversions_observed, not flagged)")
 	r.Assume("stuck-state verdicts (value/close obligations) are taken only when every goroutine with bifrost/controllerbus frames is parked and no other case is running; timers of >= 10 s (directive hold-open) are outside every case's lifetime")
